@@ -51,11 +51,21 @@ type replayFile struct {
 // after a few of them (each costs timeouts, and three replays per kind are kept anyway).
 var failedRuns = map[string]int{}
 
-func giveUp(section string) bool { return failedRuns[section] >= 3 }
+// hungRun: some Stop / Close / Add of this run never came back.  The hung object cannot be waited
+// for and its goroutines would disturb every later inventory, so the remaining sections are skipped
+// and the harness finishes with the replays it has.
+var hungRun bool
+
+func giveUp(section string) bool { return hungRun || failedRuns[section] >= 3 }
 
 func report(c *Ctx, section string, seed uint64, cfg bedConfig, variant int, steps []string, fails []failure) {
 	if len(fails) > 0 {
 		failedRuns[section]++
+	}
+	for _, f := range fails {
+		if strings.HasSuffix(f.kind, "-deadlock") {
+			hungRun = true
+		}
 	}
 	seen := map[string]bool{}
 	for _, f := range fails {
@@ -148,7 +158,7 @@ func runC18(c *Ctx) {
 
 	t1 := time.Now()
 	nCaps := c.Scale(60, 600)
-	for m := 0; m <= 4; m++ { // corpus: the minimal F12 witness for each cap (0: nobody gets in)
+	for m := 0; m <= 4 && !hungRun; m++ { // corpus: the minimal F12 witness for each cap (0: nobody gets in)
 		cases = append(cases, capsInbound(c, uint64(m), bedConfig{MaxSubnet: 64, MaxRPC: 4, MaxIn: m, MaxOut: 16, V4Bits: 24}, -1)...)
 	}
 	for i := 0; i < nCaps && !giveUp("caps-inbound"); i++ {
@@ -192,11 +202,13 @@ func runC18(c *Ctx) {
 	res.Notes = append(res.Notes, fmt.Sprintf("shutdown: %.1fs", time.Since(t3).Seconds()))
 
 	// the source no longer shows a discipline the model relies on: search harder before saying so
-	if len(ties) > 0 {
+	if len(ties) > 0 && !hungRun {
 		runDirected(c, ties, &cases)
 	}
 
-	observePeerLimitBelowOne(c)
+	if !hungRun {
+		observePeerLimitBelowOne(c)
+	}
 
 	// several files: bin/check evaluates them in parallel
 	for i := 0; i < len(cases); i += 60 {
